@@ -92,6 +92,18 @@ func (in *Interp) constValue(c *ssa.Const) Value {
 		case b.Info()&types.IsInteger != 0:
 			s, _, _ := basicSort(b)
 			v := constant.ToInt(c.Value)
+			if in.wideInt(b) {
+				bi, ok := constant.Val(v).(*big.Int)
+				if !ok {
+					i64, exact := constant.Int64Val(v)
+					if !exact {
+						u, _ := constant.Uint64Val(v)
+						return in.tb.IntConst(new(big.Int).SetUint64(u))
+					}
+					return in.tb.IntConst(big.NewInt(i64))
+				}
+				return in.tb.IntConst(bi)
+			}
 			bi, ok := constant.Val(v).(*big.Int)
 			if !ok {
 				i64, _ := constant.Int64Val(v)
@@ -232,6 +244,12 @@ func (in *Interp) storeCell(fr *frame, p *Value, v Value) {
 // concreteInt returns the concrete int64 of a scalar, concretising by forking if symbolic.
 func (in *Interp) concreteInt(v Value, signed bool, what string) int64 {
 	t := v.(*Term)
+	if t.S.K == KInt {
+		if t.IsConst() {
+			return termInt64(t, signed)
+		}
+		return int64(in.chooseValue(in.tb.Int2BV(t, 64), what))
+	}
 	if !t.IsConst() {
 		u := in.chooseValue(t, what)
 		if signed {
@@ -494,6 +512,12 @@ func (in *Interp) mapKeyVal(k Value) Value {
 // index64 normalises an index value to a 64-bit term (sign- or zero-extended).
 func (in *Interp) index64(v Value, t types.Type) *Term {
 	x := v.(*Term)
+	if x.S.K == KInt {
+		if x.IsConst() {
+			return in.tb.BVConst(64, uint64(termInt64(x, true)))
+		}
+		return in.tb.Int2BV(x, 64)
+	}
 	if x.S.W == 64 {
 		return x
 	}
@@ -571,6 +595,9 @@ func (in *Interp) symAllocCheck(fr *frame, ln, cp *Term, elt types.Type) {
 		sz = 1
 	}
 	n := cp
+	if n.S.K == KInt {
+		n = tb.Int2BV(n, 64)
+	}
 	if n.S.W < 64 {
 		n = tb.Sext(n, 64)
 	}
@@ -716,7 +743,7 @@ func (in *Interp) iterNext(it *Iter, instr *ssa.Next) Value {
 	if it.kind == 0 {
 		s := it.str.S
 		if it.pos >= len(s) {
-			return Tuple{tb.False, tb.BVConst(64, 0), tb.BVConst(32, 0)}
+			return Tuple{tb.False, in.mkInt(0), tb.BVConst(32, 0)}
 		}
 		for i, r := range s[it.pos:] {
 			_ = i
@@ -728,7 +755,7 @@ func (in *Interp) iterNext(it *Iter, instr *ssa.Next) Value {
 					it.pos = p + 3
 				}
 			}
-			return Tuple{tb.True, tb.BVConst(64, uint64(p)), tb.BVConst(32, uint64(r))}
+			return Tuple{tb.True, in.mkInt(int64(p)), tb.BVConst(32, uint64(r))}
 		}
 	}
 	m := it.m
@@ -1021,7 +1048,7 @@ func (in *Interp) callBuiltin(fr *frame, cc *ssa.CallCommon, fn *ssa.Builtin, ar
 		for i := 0; i < n; i++ {
 			in.storeCell(fr, &dst.A[i], copyVal(tmp[i]))
 		}
-		return tb.BVConst(64, uint64(n))
+		return in.mkInt(int64(n))
 
 	case "len":
 		switch x := args[0].(type) {
@@ -1029,29 +1056,29 @@ func (in *Interp) callBuiltin(fr *frame, cc *ssa.CallCommon, fn *ssa.Builtin, ar
 			if x.Opaque {
 				panic(engineAbort{"len of opaque string"})
 			}
-			return tb.BVConst(64, uint64(x.Len()))
+			return in.mkInt(int64(x.Len()))
 		case Slice:
-			return tb.BVConst(64, uint64(len(x.A)))
+			return in.mkInt(int64(len(x.A)))
 		case Array:
-			return tb.BVConst(64, uint64(len(x)))
+			return in.mkInt(int64(len(x)))
 		case *Value:
-			return tb.BVConst(64, uint64(len((*x).(Array))))
+			return in.mkInt(int64(len((*x).(Array))))
 		case *Map:
 			if x == nil {
-				return tb.BVConst(64, 0)
+				return in.mkInt(0)
 			}
-			return tb.BVConst(64, uint64(x.n))
+			return in.mkInt(int64(x.n))
 		}
 		panic(engineAbort{fmt.Sprintf("len of %T", args[0])})
 
 	case "cap":
 		switch x := args[0].(type) {
 		case Slice:
-			return tb.BVConst(64, uint64(cap(x.A)))
+			return in.mkInt(int64(cap(x.A)))
 		case Array:
-			return tb.BVConst(64, uint64(len(x)))
+			return in.mkInt(int64(len(x)))
 		case *Value:
-			return tb.BVConst(64, uint64(len((*x).(Array))))
+			return in.mkInt(int64(len((*x).(Array))))
 		}
 		panic(engineAbort{fmt.Sprintf("cap of %T", args[0])})
 
@@ -1071,6 +1098,17 @@ func (in *Interp) callBuiltin(fr *frame, cc *ssa.CallCommon, fn *ssa.Builtin, ar
 	case "min", "max":
 		res := args[0].(*Term)
 		signed := isSigned(cc.Args[0].Type())
+		if res.S.K == KInt {
+			for _, a := range args[1:] {
+				x := a.(*Term)
+				if fn.Name() == "min" {
+					res = tb.Ite(tb.IBin(OILt, x, res), x, res)
+				} else {
+					res = tb.Ite(tb.IBin(OILt, res, x), x, res)
+				}
+			}
+			return res
+		}
 		op := OUlt
 		if signed {
 			op = OSlt
